@@ -299,16 +299,16 @@ theorem handover_clean_partial (st0 : St) (h0 : st0.lastHeight = 0)
 LastCommit has validator 0's valid signature (7 > 2/3 of 10) followed by a garbage signature -/
 def witnessSigOK : Nat → SignBytes → Nat → Bool := fun _ _ s => s == 1
 def witnessSt : St := witnessSt0
-def witnessB1 : Block := ⟨1, ⟨11, 12⟩, BlockId.zero, ⟨0, 0, BlockId.zero, []⟩, false, none⟩
+def witnessB1 : Block := ⟨1, ⟨11, 12⟩, BlockId.zero, ⟨0, 0, BlockId.zero, []⟩, false, none, false⟩
 def witnessB2 (tail : CSig) : Block :=
-  ⟨2, ⟨21, 22⟩, ⟨11, 12⟩, ⟨1, 0, ⟨11, 12⟩, [⟨.commit, 1, 0, 1⟩, tail]⟩, false, none⟩
+  ⟨2, ⟨21, 22⟩, ⟨11, 12⟩, ⟨1, 0, ⟨11, 12⟩, [⟨.commit, 1, 0, 1⟩, tail]⟩, false, none, false⟩
 def witnessOps (tail : CSig) : List Op :=
   [.connect 5, .status 5 1 2, .mkreq, .mkreq, .pick 1 5, .pick 2 5,
    .block 5 witnessB1, .block 5 (witnessB2 tail), .process]
 
 /-- **handover_clean_fails.** The full-strength clause "everything stored on the way (including the
 last seen commit) lets consensus start without error" is false of the model (and of the code:
-replays/C13-oracle-5671250f563f8991.json, C13-oracle-320a7c277c6c15c6.json): after a run in which
+replays/C13-oracle-94590220ae7d651a.json, C13-oracle-2d72e2d48f382e25.json): after a run in which
 every step was accepted, `reconstructLastCommit` panics on a garbage signature, resp. on a valid
 signature with a foreign validator address, placed after the first +2/3 of the tip's commit. -/
 theorem handover_clean_fails :
